@@ -3,6 +3,7 @@ package main
 import (
 	"fmt"
 	"go/constant"
+	"go/token"
 	"go/types"
 	"sort"
 	"strings"
@@ -87,6 +88,7 @@ func checkC16(w *World, c *Check, tier string) {
 		return w.itemLikeIface(pt) != nil || isItemCollectionType(w, pt)
 	}
 	clos := w.Reach(roots, func(f *ssa.Function) bool { return isFlattener(f) })
+	checkListAlignment(w, c)
 	assigns := collectAssigns(w, pr, clos)
 	covered := map[string]bool{}
 	for _, a := range assigns {
@@ -667,6 +669,15 @@ func onlyIdentifierOf(v ssa.Value, d int, seen map[ssa.Value]bool) string {
 			return ""
 		}
 		if cal := x.Common().StaticCallee(); cal != nil {
+			// a single-item flattener applied to the member: returns the member or its own GetLink() (C16.guard decides
+			// that); the member must be an element of the list itself
+			if strings.HasPrefix(cal.Name(), "Flatten") && len(x.Common().Args) == 1 && cal.Signature.Results().Len() == 1 {
+				if u, ok := unwrap(x.Common().Args[0]).(*ssa.UnOp); ok {
+					if _, isElem := u.X.(*ssa.IndexAddr); isElem {
+						return ""
+					}
+				}
+			}
 			return "result of " + cal.Name() + "(…)"
 		}
 		return "result of a call"
@@ -679,4 +690,83 @@ func onlyIdentifierOf(v ssa.Value, d int, seen map[ssa.Value]bool) string {
 		return onlyIdentifierOf(x.X, d+1, seen)
 	}
 	return fmt.Sprintf("%T", v)
+}
+
+// checkListAlignment (C16.align): a flattener that overwrites the members of a list position by position must take
+// the position from a loop over that very list. Writing col[k] with k running over another list (the de-duplicated
+// copy) silently assumes the two are index aligned; they are not as soon as a member has no entry in the copy (a nil
+// member, a link without a type), and from there on every member is overwritten with its neighbour's id.
+func checkListAlignment(w *World, c *Check) {
+	n := 0
+	for _, f := range w.Funcs {
+		if !strings.HasPrefix(funcName(f), "Flatten") {
+			continue
+		}
+		loops := loopHeaders(f)
+		for _, b := range f.Blocks {
+			for _, in := range b.Instrs {
+				st, ok := in.(*ssa.Store)
+				if !ok {
+					continue
+				}
+				ia, ok := st.Addr.(*ssa.IndexAddr)
+				if !ok || !isItemCollectionType(w, ia.X.Type()) {
+					continue
+				}
+				// the loop whose index this is
+				var idxPhi *ssa.Phi
+				switch x := ia.Index.(type) {
+				case *ssa.Phi:
+					idxPhi = x
+				case *ssa.BinOp:
+					idxPhi, _ = x.X.(*ssa.Phi)
+				}
+				key := fmt.Sprintf("%s:store#%d", funcName(f), n+1)
+				if idxPhi == nil || !loops[b][idxPhi.Block()] {
+					continue
+				}
+				n++
+				// the slice the loop ranges over: the operand of the len() that bounds the index in the header
+				var ranged ssa.Value
+				for _, hin := range idxPhi.Block().Instrs {
+					if call, ok := hin.(*ssa.Call); ok {
+						if inner, isLen := lenOperand(call); isLen {
+							ranged = inner
+						}
+					}
+				}
+				if ranged == nil {
+					// rangeindex loops compute len() before the header
+					for _, p := range idxPhi.Block().Preds {
+						for _, pin := range p.Instrs {
+							if call, ok := pin.(*ssa.Call); ok {
+								if inner, isLen := lenOperand(call); isLen {
+									ranged = inner
+								}
+							}
+						}
+					}
+				}
+				same := ranged != nil && sameSliceValue(ranged, ia.X)
+				if same {
+					c.ok("C16.align", key, w.InstrPos(st), "the position comes from a loop over the list that is written")
+				} else {
+					c.bad("C16.align", key, w.InstrPos(st), fmt.Sprintf("%s overwrites member k of %s with k running over another list (%s): the two are index aligned only as long as every member has an entry in the other list — a nil member or a link without a type shifts all later members, which are then replaced by their neighbour's id while objects stay embedded", funcName(f), shortVal(ia.X), shortVal(ranged)))
+				}
+			}
+		}
+	}
+	if n == 0 {
+		c.ok("C16.align", "none", "-", "no positional overwrite of list members in the flatteners")
+	}
+}
+
+// sameSliceValue: two SSA values denote the same slice variable (identical, or loads of one local cell).
+func sameSliceValue(a, b ssa.Value) bool {
+	if a == b {
+		return true
+	}
+	la, ok1 := a.(*ssa.UnOp)
+	lb, ok2 := b.(*ssa.UnOp)
+	return ok1 && ok2 && la.Op == token.MUL && lb.Op == token.MUL && la.X == lb.X
 }
